@@ -19,6 +19,7 @@ import (
 
 	"github.com/Flowpack/prunner"
 	"github.com/Flowpack/prunner/definition"
+	_ "github.com/Flowpack/prunner/server" // linked by the prunner binary: its init configures the shared JSON library
 	"github.com/Flowpack/prunner/store"
 	"github.com/Flowpack/prunner/taskctl"
 	"github.com/Flowpack/prunner/test"
